@@ -32,7 +32,10 @@ type c09Case struct {
 
 var c09Alphabet = []string{"a@example.org", "A2@EXAMPLE.ORG", "b@пример.рф", "c@xn--e1afmkfd.xn--p1ai", "ü@example.org", "d@example.org"}
 
+var c09Outcome string // observation class of the last run (vacuity guard)
+
 func c09Run(c c09Case) (string, string) {
+	c09Outcome = ""
 	w := peers.NewWorld(rhPKI)
 	defer w.Close()
 	reply := func(stage, arg string) *smtp.SMTPError {
@@ -92,6 +95,13 @@ func c09Run(c c09Case) (string, string) {
 				rhNoteErr("status "+r, e)
 			}
 		}
+		nfail := 0
+		for _, e := range st.errs {
+			if e != nil {
+				nfail++
+			}
+		}
+		c09Outcome += fmt.Sprintf("[offered=%d accepted=%d failed-status=%d]", len(rcpts), len(accepted), nfail)
 		got := append([]string{}, st.calls...)
 		sort.Strings(got)
 		want := append([]string{}, accepted...)
@@ -218,6 +228,8 @@ func TestVerifC09(t *testing.T) {
 					}
 					if fp != "" {
 						r.Violation(fp, detail+"\ncase: "+vx.JSON(c), c)
+					} else {
+						r.Outcome(c09Outcome)
 					}
 					if idx%4001 == 0 {
 						r.Sample(c)
